@@ -323,6 +323,23 @@ func (g *gen) tmap(depth int) *V {
 		}
 		v.Tags = append(v.Tags, g.ptag("/"+k))
 	}
+	if nestedKey != "" && g.r.Chance(1, 3) {
+		// a pointer three (or four) levels deep: a further map below the nested one
+		for j, kk := range v.Keys {
+			if kk == nestedKey {
+				inner := g.leafMap(true, 1+g.r.Intn(2))
+				ptr := fmt.Sprintf("/%s/k7/k%d", nestedKey, 1+g.r.Intn(2))
+				if g.r.Chance(1, 4) {
+					inner.Keys = append(inner.Keys, "k3")
+					inner.Vals = append(inner.Vals, g.leafMap(true, 2))
+					ptr = fmt.Sprintf("/%s/k7/k3/k%d", nestedKey, 1+g.r.Intn(3))
+				}
+				v.Vals[j].Keys = append(v.Vals[j].Keys, "k7")
+				v.Vals[j].Vals = append(v.Vals[j].Vals, inner)
+				v.Tags = append(v.Tags, g.ptag(ptr))
+			}
+		}
+	}
 	if nestedKey != "" && g.r.Chance(2, 3) {
 		// nested pointers name keys holding strings (k1 always does) or absent keys
 		for n := 1 + g.r.Intn(2); n > 0; n-- {
